@@ -185,7 +185,8 @@ func merge(l []*explore.Stats) *explore.Stats {
 			}
 			m.ExecsByCost[k] += v
 		}
-		if s.CompletedBound < m.CompletedBound {
+		// a shard whose whole subtree was enumerated has completed every bound
+		if !s.Saturated && s.CompletedBound < m.CompletedBound {
 			m.CompletedBound = s.CompletedBound
 		}
 		m.Saturated = m.Saturated && s.Saturated
@@ -222,6 +223,9 @@ func merge(l []*explore.Stats) *explore.Stats {
 		if s.Wall > m.Wall {
 			m.Wall = s.Wall
 		}
+	}
+	if m.CompletedBound == 1<<30 {
+		m.CompletedBound = len(m.ExecsByCost) - 1
 	}
 	return m
 }
